@@ -598,14 +598,22 @@ def parseTM (s : String) : Option TreeMarshal :=
     | _ => none
   | _ => none
 
-/-- `s/k` server items; a dash in place of `k` is an entry without public key -/
+/-- the server label a roster entry is looked up by: the identifier derived from its KEY (`ServerIdentity.GetID()`,
+which `MakeTreeFromList` and `TreeMarshalCopyTree` use since the repair of round 7) — key `(s+1)·G` is server `s`'s
+(labels 0–47); a key that is no server's gets a label of its own; an entry without key has the nil identifier -/
+def sidOfKey (k : Nat) : Nat := if 1 ≤ k ∧ k ≤ 48 then k - 1 else 9000 + k
+def sidNoKey : Nat := 9999
+
+/-- `a/b`: `a` is what the entry's deprecated `ID` FIELD claims (a server label, or `n` = the field is empty) — the
+tree code never reads it, so the model does not keep it; `b` is the key (`-`: none) -/
 def parseServers (s : String) : Option (List Server) :=
   if s = "-" then some [] else
   (s.splitOn ",").mapM fun it =>
     match it.splitOn "/" with
     | [a, b] =>
-      if b = "-" then do some { sid := (← a.toNat?), key := 0, nokey := true }
-      else do some { sid := (← a.toNat?), key := (← b.toNat?) }
+      if a ≠ "n" ∧ a.toNat?.isNone then none
+      else if b = "-" then some { sid := sidNoKey, key := 0, nokey := true }
+      else do let k ← b.toNat?; some { sid := sidOfKey k, key := k }
     | _ => none
 
 def optRoster (st : State) (s : String) : Option (Option Roster) :=
